@@ -72,7 +72,11 @@ Patterns == << <<<<97>>, <<98>>>>,                                 \* a/b/a/b...
                <<Big, <<233>>, DOTDOT, Big>>,
                <<<<97>>, DOTDOT, <<>>, Big, <<98, 58, 99>>, Big, Big, Big, Big, Big, Big, Big, Big, Big, DOT>> >>   \* a/..//Big/b:c/Big.../.
 PatternPath(k, n) == [i \in 1..n |-> Patterns[k][((i - 1) % Len(Patterns[k])) + 1]]
+\* a leading empty segment behind its shield ("/.//a/b...", "/x/..//a/b...") in front of many segments:
+\* the shield rules and the spill of the segment stack at once
+LeadEmpty == {<<DOT, <<>>>>, <<<<120>>, DOTDOT, <<>>>>, <<<<>>>>}
 LongSegLists == {PatternPath(k, n) : k \in 1..(Len(Patterns) - 2), n \in {16, 17, 18, 33}}
+                \cup {pre \o PatternPath(k, n) : pre \in LeadEmpty, k \in {1, 5}, n \in {15, 16, 17}}
                 \* > 512 bytes of normalized segments (ten 60-byte ones); ~30 s of TLC time: thorough tier only
                 \cup (IF MaxSegs = 0 THEN {PatternPath(Len(Patterns) - 1, 20), PatternPath(Len(Patterns), 15)} ELSE {})
 
